@@ -770,6 +770,12 @@ func (s *State) Commit(repo gitstore.Storer, commitMessage string, createRSLEntr
 				return repo.ResetDueToError(err, PolicyStagingRef, originalCommitID)
 			}
 
+			// The reference did not exist before: remove it again so that
+			// it does not exist without a corresponding RSL entry.
+			if deleteErr := repo.DeleteReference(PolicyStagingRef); deleteErr != nil {
+				return fmt.Errorf("unable to remove %s, caused by following error: %w", PolicyStagingRef, err)
+			}
+
 			return err
 		}
 	}
@@ -865,6 +871,12 @@ func Apply(ctx context.Context, repo gitstore.Storer, signRSLEntry bool) error {
 	if err := rsl.NewReferenceEntry(PolicyRef, policyStagingTip).Commit(repo, signRSLEntry); err != nil {
 		if !policyTip.IsZero() {
 			return repo.ResetDueToError(err, PolicyRef, policyTip)
+		}
+
+		// The reference did not exist before: remove it again so that it
+		// does not exist without a corresponding RSL entry.
+		if deleteErr := repo.DeleteReference(PolicyRef); deleteErr != nil {
+			return fmt.Errorf("unable to remove %s, caused by following error: %w", PolicyRef, err)
 		}
 
 		return err
